@@ -66,6 +66,9 @@ type Extra interface {
 // re-run that confirms a hang; default is 4x the watchdog.
 type HangConfirmer interface{ HangConfirmSeconds() int }
 
+// DeathCapper lets a check whose scope legitimately kills many workers (C06) raise the cap.
+type DeathCapper interface{ MaxWorkerDeaths() int }
+
 // MemLimiter lets a check choose the worker address-space limit (bytes).
 type MemLimiter interface{ MemLimit() uint64 }
 
